@@ -670,3 +670,46 @@ Proof.
   intro H. apply spec_fold_origin in H as [H|H]; auto.
   apply clean_acc_incl in H as [[]|H]. auto.
 Qed.
+
+(* ---------- listing by tag schema ---------- *)
+
+Lemma changes_nonempty_nil : changes_nonempty [].
+Proof. constructor. Qed.
+
+Lemma cleaned_listing x :
+  let c := match apply_changes x [] with Updated c => c | NoUpdate => x end in
+  wf c /\ forall k, In k (keys c) <-> (negb (k =? 0) && has_key k x) = true.
+Proof.
+  simpl. destruct (apply_changes x []) as [|c] eqn:E.
+  - apply (apply_noupdate_iff x [] changes_nonempty_nil) in E as [W _]. split; auto.
+    intro k. rewrite <- has_key_In. destruct W as [_ F]. split.
+    + intro H. rewrite H, andb_true_r. apply negb_true_iff, N.eqb_neq. intro; subst k.
+      apply has_key_In in H. unfold keys in H. apply in_map_iff in H as (d & Ed & Hd).
+      rewrite Forall_forall in F. apply F in Hd. apply nonempty_true in Hd. congruence.
+    + intro H. now apply andb_true_iff in H as [_ H].
+  - destruct (apply_set_semantics x [] c changes_nonempty_nil E) as (_ & W & M). split; auto.
+Qed.
+
+Lemma filter_referrers_keys_nodup l art : NoDup (keys l) -> NoDup (keys (filter_referrers l art)).
+Proof.
+  unfold filter_referrers. destruct (art =? 0); auto. apply NoDup_keys_filter.
+Qed.
+
+Lemma list_referrers_spec r art :
+  NoDup (keys (list_referrers r art)) /\
+  Forall (fun d => nonempty d = true) (list_referrers r art) /\
+  (forall d, In d (list_referrers r art) -> art = 0 \/ dart d = art) /\
+  (forall k, In k (keys (list_referrers r 0)) <->
+             (negb (k =? 0) && has_key k (match r with Some x => x | None => [] end)) = true).
+Proof.
+  unfold list_referrers. set (x := match r with Some x => x | None => [] end).
+  destruct (cleaned_listing x) as [[N F] M]. simpl in M.
+  set (c := match apply_changes x [] with Updated c => c | NoUpdate => x end) in *.
+  repeat split.
+  - now apply filter_referrers_keys_nodup.
+  - apply Forall_forall. intros d Hd. apply filter_referrers_spec in Hd as [Hd _].
+    rewrite Forall_forall in F. auto.
+  - intros d Hd. now apply filter_referrers_spec in Hd as [_ Hd].
+  - unfold filter_referrers. simpl. apply M.
+  - unfold filter_referrers. simpl. apply M.
+Qed.
